@@ -29,6 +29,8 @@ func (C11) Describe() CheckInfo {
 }
 
 var c11Probes = []string{
+	"\"ab\" * 9223372036854775807", ".[] * 4611686018427387904", "\"banana\" * 0x7fffffffffffffff", "9223372036854775807 * \"xy\"", "\"x\" * 10000001", "\"abc\" * -1", ".. |= (. * 3000000000)",
+	".[9223372036854775807]", ".[-9223372036854775808]", ".[1:9223372036854775807]", "9223372036854775807 + 1", "-9223372036854775808 - 1", "9223372036854775807 % -1", "-9223372036854775808 / -1",
 	".", "..", "...", ".. | select(. == \"x\")", "sort", "sort_by(.a)", "sort_by(.id)", ".[] | sort_keys(.)", "to_entries", "keys", "length", ".. | tag", "flatten", "unique", "group_by(.a)",
 	".[0]", ".[-1]", ".[1:3]", ".[-2:]", "del(.[0])", "map(.)", "with_entries(.)", "explode(.)", ".. | anchor", "to_json", "@csv", "@tsv", "@base64d", "@base64", "from_yaml", "split_doc", ".. | path", "path(..)", "pivot", "min", "max", "any", "all", "reverse",
 	".. style=\"flow\"", ".. |= .", "[.[] | tag]", ".a.b.c = 1", ". * .", ". + .", ". - .", ".[] / 2", ".[] % 2", "[.[] | . * 2]", "... comments=\"\"", ".. | line", ".. | column", "[.. | key]", "[.. | parent]", ".. | parent(3)",
@@ -176,7 +178,9 @@ func (C11) Generate(c *Ctx, r *Rand, index int) *Scenario {
 	if fi.Name == "lua" && sc.MetaString("special") == "" && rs.Chance(1, 30) {
 		// legal Lua whose result is not a tree: tables that contain themselves, shared tables
 		text = Pick(rs, []string{"t = {}; t.a = t; return t\n", "t = {}\nt.a = t\n", "local a = {}\nlocal b = {a}\na[1] = b\nreturn {x = a}\n",
-			"local s = {1, 2}\nreturn {a = s, b = s, c = {s, s}}\n", "local t = {}\nt[t] = 1\nreturn t\n", "return {[{}] = {}, [1.5] = 2, [true] = 3}\n"})
+			"local s = {1, 2}\nreturn {a = s, b = s, c = {s, s}}\n", "local t = {}\nt[t] = 1\nreturn t\n", "return {[{}] = {}, [1.5] = 2, [true] = 3}\n",
+			// sparse and huge integer keys: a table is not an array because its keys are numbers
+			"return {[1]=\"a\",[300000000]=\"b\"}\n", "return {[2147483647]=true}\n", "return {1,nil,3}\n", "return {x = {[1]=1,[2]=2,[9007199254740992]=3}}\n", "return {[0]=1,[-1]=2,[1e300]=3}\n"})
 		sc.Meta["input"] = "lua-table-graph"
 		sc.Meta["deep"] = true // no damage on top
 	}
